@@ -1,6 +1,6 @@
 """C05 - Stochastic simulation samples the chemical master equation exactly."""
 import os
-CONTRACT_MODULES = ['simulator_ssa', 'random_', 'simulator_interfaces', 'types_propensities']
+CONTRACT_MODULES = ['simulator_ssa', 'random_', 'simulator_interfaces', 'simulator_safe', 'types_propensities']
 SPEC_MODULES = ['functions', 'lemmas_prob']
 LEVEL = 'proof'
 ASSUMPTIONS = [
@@ -8,6 +8,7 @@ ASSUMPTIONS = [
     'the event uniform_rv() == 0 (probability 2^-53) is excluded: ln diverges and sample_discrete would return -1',
     'measure of an interval under the uniform law, and Gillespie\'s theorem (the three per-step laws characterise the chemical master equation): cited; the statement itself gives this equivalence',
     'propensities are non-negative at reachable states (assumed in the abstract interface contract; proved for the safe interface)',
+    'safe interface: sprop is the rate law of the propensity object (clipped at 0) for every reaction all of whose table entries (consumed species with the needed amount) are satisfied, and 0 otherwise (contracts/simulator_safe.py, stated over the table entries; the positions 0..ccount-1 of a row are exactly the consumed species, a counting fact about ccount that is not mechanised)',
     'the abstract interface symbols sprop / rules_state are instantiated for ModelCSimInterface by rate_STO of the reaction\'s propensity object and the rule classes (contracts simulator_interfaces, types_propensities)',
 ]
 TRUSTED = ['numpy: zeros, ndarray.copy, elementwise + of equal-shape matrices']
